@@ -24,16 +24,16 @@ var (
 	shC02 = Shape{ShareBound: 25, EquivFocus: 20, MaybeChanging: 10, ChangingFaults: 70}
 	shC03 = Shape{ShareBound: 15, MaybeChanging: 8, ChangingFaults: 70}
 	shC04 = Shape{MaxN: 10, MaybeChanging: 12, ChangingFaults: 60}
-	shC10 = Shape{}
+	shC10 = Shape{MaybeChanging: 10, ChangingFaults: 60}
 	mkC05 = func() []*sim.Mon { return []*sim.Mon{sim.MonC05()} }
 	mkC07 = func() []*sim.Mon { return []*sim.Mon{sim.MonC07()} }
 	shC05 = Shape{MaxHeights: 5, MaybeChanging: 40, StepsFactor: 150, ChangingFaults: 40}
-	shC07 = Shape{}
+	shC07 = Shape{MaybeChanging: 10, ChangingFaults: 60}
 	mkC11 = func() []*sim.Mon { return nil }
 	mkC12 = func() []*sim.Mon { return []*sim.Mon{sim.MonC12()} }
 	mkC13 = func() []*sim.Mon { return []*sim.Mon{sim.MonC13()} }
-	shC11 = Shape{Probes: 12, MaybeChanging: 15}
-	shC12 = Shape{ManyTxs: true}
+	shC11 = Shape{Probes: 12, MaybeChanging: 15, ChangingFaults: 50}
+	shC12 = Shape{ManyTxs: true, MaybeChanging: 10, ChangingFaults: 60}
 	shC13 = Shape{Watchers: true}
 )
 
@@ -61,6 +61,9 @@ func init() {
 		return RunViewStorm(&ReplaySrc{Vals: vals[1:]}, mkC10(), keepLog)
 	})
 	regSafety("C05", mkC05, shC05)
+	replayers["C05"] = append(replayers["C05"], func(vals []int, keepLog bool) *sim.World {
+		return RunResetOverEarlyTraffic(&ReplaySrc{Vals: vals}, mkC05(), keepLog)
+	})
 	regSafety("C07", mkC07, shC07)
 	replayers["C07"] = append(replayers["C07"], func(vals []int, keepLog bool) *sim.World {
 		return RunWatchOnlySolo(&ReplaySrc{Vals: vals}, mkC07(), keepLog)
@@ -194,10 +197,27 @@ func TestC10(t *testing.T) {
 }
 
 func TestC05(t *testing.T) {
-	runProp(t, "C05", func(e *Env) func(*rapid.T) {
-		return SafetyProp(e, mkC05, shC05, func(w *sim.World) bool {
-			return w.Stats["c05_reinit_checked"] > 0 && (w.Stats["c05_skipped_heights"] > 0 || w.Stats["changing_sets"] > 0 || w.Stats["c05_early_traffic"] > 0 || w.Stats["c05_call_after_decision"] > 0)
+	SkipUnlessSelected(t, "C05")
+	e := GetEnv("C05")
+	defer e.Flush()
+	rapid.Check(t, SafetyProp(e, mkC05, shC05, func(w *sim.World) bool {
+		return w.Stats["c05_reinit_checked"] > 0 && (w.Stats["c05_skipped_heights"] > 0 || w.Stats["changing_sets"] > 0 || w.Stats["c05_early_traffic"] > 0 || w.Stats["c05_call_after_decision"] > 0)
+	}))
+	if t.Failed() {
+		return
+	}
+	// Reset over change views received early for a height the node reaches through the ledger: the view is entered
+	// inside Reset (driver B; a case costs a fraction of a millisecond)
+	rapid.Check(t, func(t *rapid.T) {
+		src := &RapidSrc{T: t}
+		w := RunResetOverEarlyTraffic(src, mkC05(), false)
+		fatal := e.Report(w, src.Rec, func() string {
+			return RunResetOverEarlyTraffic(&ReplaySrc{Vals: src.Rec}, mkC05(), true).Render()
 		})
+		e.Case(FPInts(src.Rec), w.Stats["view_entered_inside_reset"] > 0, w.Stats, func() any { return sampleOf(w, src.Rec) })
+		if fatal != "" {
+			t.Fatalf("%s", fatal)
+		}
 	})
 }
 
